@@ -381,7 +381,7 @@ def table_lemmas(repo):
     t0 = time.time()
     p = subprocess.run(['/venv/bin/python', '-c', TABLE_PROBE.replace('REPO', repr(repo))], capture_output=True, text=True)
     ms = (time.time() - t0) * 1000
-    props = ['C06', 'C02']
+    props = ['C06', 'C02', 'C14']
     if p.returncode != 0:
         return {'results': [mk('table:core_tokens.punctuation', 'undecided', ms, props, detail='probe failed: ' + p.stderr[-300:],
                                fn='mistletoe.core_tokens', kind='resolve')], 'sha': {}}
@@ -697,7 +697,7 @@ LEMMAS = {
     'classes:structure': (class_lemmas, ['C18', 'C01', 'C11', 'C16']),
     'state:globals': (state_lemmas, ['C11', 'C16']),
     'state:decorators': (decorator_lemma, ['C11']),
-    'tables:core_tokens': (table_lemmas, ['C06', 'C02']),
+    'tables:core_tokens': (table_lemmas, ['C06', 'C02', 'C14']),
     'frame:children': (child_frame_lemma, ['C12']),
     'phase:separation': (phase_lemma, ['C07']),
 }
